@@ -1151,14 +1151,14 @@ def judge(col, req, stmt, real, viol, model, ref, how):
         f.update({"what": "%s: %s" % (req["cls"], ORACLE_TEXT[v]), "signature": "%s: %s" % (v, req["cls"]),
                   "failing_input": True})
         col.add(f)
+    if hard:
+        return False                      # reported under the oracle's own signature; no second failure for the mismatch
     ref_ok = ref is None or same_answer(real, ref)
     if model is not None and model[0] in ("ok", "err"):
         if not same_answer(real, model):
             f = dict(base)
-            wrong_real = bool(hard) or (ref is not None and not ref_ok)
-            if ref is None and not hard:
-                # no arbiter: a mismatch in the error kind alone is still decidable when the kind is not allowed
-                wrong_real = False
+            # the byte reference arbitrates; a fixed expectation (EXTRAS, taken from the documented behaviour) needs none
+            wrong_real = (ref is not None and not ref_ok) or bool(req.get("fixed"))
             f.update({"what": "%s: implementation answers %s, model answers %s%s" % (
                 req["cls"], show_answer(real), show_answer(model),
                 "" if ref is None else " (byte reference: %s)" % show_answer(ref)),
@@ -1187,7 +1187,7 @@ def judge(col, req, stmt, real, viol, model, ref, how):
                   "signature": req["cls"], "failing_input": True})
         col.add(f)
         return False
-    return not hard
+    return True
 
 
 def correspondence(ctx, model_ok=True):
@@ -1264,7 +1264,7 @@ def correspondence(ctx, model_ok=True):
         account(reqs[i], all_stmts[base + k], real[base + k], model_parsed[i], reference(reqs[i]), "try/catch", True)
     base += len(caught_idx)
     for k, (s, exp) in enumerate(extras):
-        pseudo = {"cls": "extra " + ("index" if "[" in s else "iter"), "line": None}
+        pseudo = {"cls": "extra " + ("index" if "[" in s else "iter"), "line": None, "fixed": True}
         expm = exp if exp[0] == "ok" else ("err", exp[1], exp[2], exp[3])
         account(pseudo, s, real[base + k], expm, None, "step", False)
         account(pseudo, all_stmts[base + len(extras) + k], real[base + len(extras) + k], expm, None, "try/catch", True)
